@@ -8,7 +8,8 @@ LEVEL = "exploration"
 RULE = ("seeded random well-typed programs (3-14 statements) over numbers, booleans, strings with interpolation, three "
         "struct types (one nested), lists and function values: top-level variables with shadowing, functions with 1-3 "
         "parameters (some named like a global), where-clauses (some shadowing a parameter), bounded recursion, redefinition "
-        "of functions that earlier functions call or that are stored in variables, calls, calls through function-valued "
+        "of functions that earlier functions call or that are stored in variables (a quarter of the programs are pure "
+        "name-resolution programs: few global names re-bound repeatedly between function definitions that read them), calls, calls through function-valued "
         "expressions, `|>` with and without extra arguments, conditionals, boolean logic, comparisons, struct literals with "
         "permuted field order and (nested) field access, list functions (map/filter/foldl/concat/take/drop/sort/...). Each "
         "program is run by the real interpreter — as one input or statement by statement — and by the reference evaluator "
@@ -85,7 +86,11 @@ def nan_norm(j):
 
 
 def run_program(sh, w, base, rng, k, kn=0):
-    stmts, g = R.gen_program(rng, f"t{k}x", rng.randint(3, 14))
+    if rng.random() < 0.25:
+        stmts, g = R.gen_scope_program(rng, f"t{k}x")
+        sh.count("scoping_programs")
+    else:
+        stmts, g = R.gen_program(rng, f"t{k}x", rng.randint(3, 14))
     texts = [R.render_stmt(s) for s in stmts]
     m = R.Machine()
     expect_error = None
